@@ -59,7 +59,7 @@ def one(entry):
         shutil.rmtree(d, ignore_errors=True)
 
 
-ALL = ["C01", "C02", "C03", "C04", "C05", "C08", "C09", "C10", "C11", "C12", "C13", "C14", "C15", "C16", "C17", "C18", "C19", "C20"]
+ALL = ["C01", "C02", "C03", "C04", "C05", "C07", "C08", "C09", "C10", "C11", "C12", "C13", "C14", "C15", "C16", "C17", "C18", "C19", "C20"]
 
 
 def global_variant(kind):
